@@ -108,8 +108,14 @@ def check_scool(case, ctx: Ctx):
     if case["metadata"]:
         kw["metadata"] = case["metadata"]
     try:
-        call("create_scool", cooler.create_scool, path, bins_arg, pixels_arg, ordered=True, symmetric_upper=symmetric,
-             h5opts={"compression": None}, **kw)
+        # arguments equal to the documented defaults are left out in half of the cases (the pixel frames are sorted, so
+        # the default ordered=False - sort-and-merge - must store the same thing)
+        okw = {"ordered": True, "symmetric_upper": symmetric}
+        if len(cells) % 2 == 0:
+            okw.pop("ordered")
+            if symmetric:
+                okw.pop("symmetric_upper")
+        call("create_scool", cooler.create_scool, path, bins_arg, pixels_arg, h5opts={"compression": None}, **okw, **kw)
         check(call("is_scool_file", is_scool_file, path), "file is not recognised as a single-cell file")
         listing = call("list_scool_cells", list_scool_cells, path)
         want_listing = sorted(["/cells/" + nm for nm in cells], key=_natkey)
